@@ -549,6 +549,10 @@ def exec_seq(sess: Session, op: dict, step: int) -> Effect:
             return eff
     except Unresolvable:
         raise
+    except ARITH_ERRORS:
+        # a ledger expression such as 0/0 has no value; reading it through a value view raises
+        # exactly what evaluating it directly raises, which no property forbids
+        raise Unresolvable('value of a ledger expression is undefined')
     except Exception as e:
         got_exc = e
     what = f'{type(owner).__name__}.{mname}.{kind}({op.get("i", op.get("sl", ""))}; {len(vals)} value(s)) on {len(cur)} item(s)'
@@ -745,6 +749,8 @@ def exec_map(sess: Session, op: dict, step: int) -> Effect:
         return eff
     except Unresolvable:
         raise
+    except ARITH_ERRORS:
+        raise Unresolvable('value of a ledger expression is undefined')
     except Exception as e:
         eff.exc = e
         eff.outcome = 'raised'
